@@ -89,8 +89,19 @@ func bklrEvent(r *Run, g *gen.G, layers []tv.T) []byte {
 	name := "a"
 	top := ""
 	for i, l := range layers {
+		prev := name
 		if i > 0 {
 			name += "." + string(rune('a'+i))
+		}
+		if m, isMap := tv.ToGo(l).(map[string]any); isMap && i > 0 && i == len(layers)-1 && g.P(0.25) {
+			// the same chain spelled with $parent: the top layer has a plain name and names its parent
+			mm := map[string]any{"$parent": prev}
+			for k, v := range m {
+				mm[k] = v
+			}
+			name = "top"
+			top = writeTree(d, name, allExts, g, tv.FromGo(mm))
+			continue
 		}
 		top = writeTree(d, name, allExts, g, l)
 	}
@@ -613,6 +624,13 @@ func bkliEvent(r *Run, g *gen.G, inputs []tv.T, kf string) []byte {
 		files[i] = writeTree(d, fmt.Sprintf("in%d", i), allExts, g, in)
 	}
 	cf := "common." + g.Pick([]string{"yaml", "json"})
+	if len(files) >= 2 && g.P(0.15) {
+		// an input named twice (the second time perhaps through a virtual extension): it
+		// counts once, and every input after it still counts
+		at := 1 + g.N(len(files)-1)
+		files = append(files[:at:at], append([]string{files[at-1]}, files[at:]...)...)
+		inputs = append(inputs[:at:at], append([]tv.T{inputs[at-1]}, inputs[at:]...)...)
+	}
 	named := make([]string, len(files))
 	for i, f := range files {
 		named[i] = virtualName(g, f)
